@@ -1177,22 +1177,62 @@ func (e *Env) quant(q *Quant) Val {
 	if len(trigs) > 0 {
 		return boolTV(render(body, decl, trigs))
 	}
-	// variant 1: triggers on the terms as written; variant 2 (when an index is used with an offset):
-	// the same formula after the change of variable j = offset + i, triggering on the offset accesses.
-	b1, _, d1, t1 := autoTrigger(body, append([]string(nil), names...), append([]string(nil), decl...), false)
-	out := render(b1, d1, t1)
-	if b2, _, d2, t2 := autoTrigger(body, append([]string(nil), names...), append([]string(nil), decl...), true); b2 != b1 && len(t2) > 0 {
-		v2 := render(b2, d2, t2)
-		if len(t1) == 0 {
-			out = v2
-		} else if q.All {
-			altVariant[out] = v2
-			out = and(out, v2)
-		} else {
-			out = or(out, v2)
+	one := func(body string) string {
+		// variant 1: triggers on the terms as written; variant 2 (when an index is used with an offset):
+		// the same formula after the change of variable j = offset + i, triggering on the offset accesses.
+		b1, _, d1, t1 := autoTrigger(body, append([]string(nil), names...), append([]string(nil), decl...), false)
+		out := render(b1, d1, t1)
+		if b2, _, d2, t2 := autoTrigger(body, append([]string(nil), names...), append([]string(nil), decl...), true); b2 != b1 && len(t2) > 0 {
+			v2 := render(b2, d2, t2)
+			if len(t1) == 0 {
+				out = v2
+			} else if q.All {
+				altVariant[out] = v2
+				out = and(out, v2)
+			} else {
+				out = or(out, v2)
+			}
+		}
+		return out
+	}
+	if q.All {
+		// forall x. (g => c1 && ... && cn) is rendered as one quantifier per conjunct, each with its own
+		// triggers: a frame clause over many fields must fire on a term of any one of them
+		if parts := distribute(body); len(parts) > 1 && len(parts) <= 24 {
+			var outs []string
+			for _, p := range parts {
+				outs = append(outs, one(p))
+			}
+			return boolTV(and(outs...))
 		}
 	}
-	return boolTV(out)
+	return boolTV(one(body))
+}
+
+// distribute splits (=> g (and c1 .. cn)) and (and c1 .. cn) (nested) into [(=> g c1) ...].
+func distribute(body string) []string {
+	var parts []string
+	var rec func(n *sx, wrap func(string) string, depth int)
+	rec = func(n *sx, wrap func(string) string, depth int) {
+		if n.kids != nil && depth < 4 {
+			switch n.head() {
+			case "and":
+				for _, k := range n.kids[1:] {
+					rec(k, wrap, depth)
+				}
+				return
+			case "=>":
+				if len(n.kids) == 3 {
+					g := n.kids[1].String()
+					rec(n.kids[2], func(s string) string { return wrap("(=> " + g + " " + s + ")") }, depth+1)
+					return
+				}
+			}
+		}
+		parts = append(parts, wrap(n.String()))
+	}
+	rec(parseSx(body), func(s string) string { return s }, 0)
+	return parts
 }
 
 func isUntypedOrInt(t types.Type) bool {
